@@ -5,6 +5,7 @@ alphabet and runs every set operation in every call form on the real petl code. 
 collections.Counter arithmetic on the input rows (mc/refs/setops.py), the reassembly law
 complement(a, b) + intersection(a, b) == a, and "in a's order" for the hash variants.
 """
+import datetime
 import itertools
 from collections import Counter
 
@@ -24,7 +25,11 @@ RULE = ('all ordered pairs (a, b) of rectangular tables: width 1 over K6 = {None
         '<= 2 rows a side) so that all 6 column permutations of b - including the non-self-inverse 3-cycles - are '
         'enumerated for the record variants; plus hash-twin alphabets (cells over {-1, -2, 0, 2**61-1}: different '
         'values with equal hashes, width 1 and 2) and header-cell alphabets (cells drawn from the field names of '
-        'a / of b, so data rows can equal the same, renamed or permuted header row of either side); x complement/intersection/diff/hashcomplement/'
+        'a / of b, so data rows can equal the same, renamed or permuted header row of either side), text/bytes '
+        'alphabets (one column mixing u"x", b"x", u"y", b"y", None and a number, width 1 and 2) and unordered-cell '
+        'alphabets (two complex numbers, a naive and an aware datetime: unequal, hashable, no order between them; '
+        'only tables with <= 1 row a side, because a side holding two mutually unordered rows has no sort order); '
+        'x complement/intersection/diff/hashcomplement/'
         'hashintersection/recordcomplement/recorddiff x strict on/off x buffersize in {None, 1} x presorted=True '
         '(only on pairs that are already lexically sorted under the reference order) x b header same/renamed x '
         'every column permutation of b for the record variants x row-container type of each side independently '
@@ -53,6 +58,7 @@ HDR = {1: ('x',), 2: ('x', 'y'), 3: ('x', 'y', 'z')}
 RENAMED = {1: ('p',), 2: ('p', 'q'), 3: ('p', 'q', 'r')}
 
 HASH_TWINS = (-1, -2, 0, 2 ** 61 - 1)
+UNORDERED = (1j, 2j, datetime.datetime(2020, 1, 2, 3, 4), datetime.datetime(2020, 1, 2, 3, 4, tzinfo=datetime.timezone.utc))
 
 # row-container axis: how each input table is handed to petl (the property is about rows as values)
 #   'tuple' tuple of tuples; 'list' list of lists; 'wrap' etl.wrap(list of lists) (a petl Table, list rows);
@@ -111,6 +117,14 @@ def _alphabets(seed):
             'w2h': [(u, v) for u in HASH_TWINS[:2] for v in HASH_TWINS[2:]],
             # cells drawn from the field names: a data row can be EQUAL to the header row of a / of b
             # (same, renamed or column-permuted header)
+            # one column mixing text and bytes cells (plus None and a number): bytes < text, equal spellings differ
+            'w1tb': [(v,) for v in (u'x', b'x', u'y', b'y', None, k3[1])],
+            'w2tb': [(u, v) for u in (u'x', b'x') for v in (u'y', b'y')],
+            # hashable cells that are unequal and have NO order between them (same type, '<' raises): two complex
+            # numbers, a naive and an aware datetime.  Only tables with at most one row a side are enumerated over
+            # them: with two such rows on one side there is no sort order the merge could rely on
+            'w1u': [(v,) for v in UNORDERED],
+            'w2u': [(k3[1], v) for v in UNORDERED],
             'w1n': [(v,) for v in (HDR[1][0], RENAMED[1][0], None)],
             'w2n': [HDR[2], (HDR[2][1], HDR[2][0]), RENAMED[2], (HDR[2][0], None)]}
 
@@ -506,6 +520,10 @@ def _plan(tier):
                 ('w1s', 'w1s', 2, 2, 'cfg', 'all'),         # chunk size via petl.config.sort_buffersize
                 ('w2s', 'w2s', 2, 2, 'cfg', 'n+m<=3'),
                 ('w1s', 'w1s', 2, 2, 'flaky', 'n+m<=3'),    # transient source failure, then passes 2 and 3
+                ('w1tb', 'w1tb', 2, 2, 'base', 'all'),      # text and bytes cells in one column
+                ('w2tb', 'w2tb', 2, 2, 'base', 'n+m<=3'),
+                ('w1u', 'w1u', 1, 1, 'base', 'all'),        # unequal cells without an order between them
+                ('w2u', 'w2u', 1, 1, 'base', 'all'),
                 ('w1h', 'w1h', 2, 2, 'base', 'all'),        # hash-equal but different cells
                 ('w2h', 'w2h', 2, 2, 'base', 'all'),
                 ('w1n', 'w1n', 2, 2, 'base', 'all'),        # data rows that equal a header row
@@ -532,6 +550,11 @@ def _plan(tier):
             ('w2s', 'w2s', 2, 2, 'cfg', 'all'),
             ('w1s', 'w1s', 2, 2, 'flaky', 'all'),
             ('w2s', 'w2s', 2, 2, 'flaky', 'n+m<=3'),
+            ('w1tb', 'w1tb', 3, 3, 'base', 'n+m<=5'),
+            ('w2tb', 'w2tb', 2, 2, 'base', 'all'),
+            ('w1tb', 'w1tb', 2, 2, 'buf', 'all'),
+            ('w1u', 'w1u', 1, 1, 'base', 'all'),
+            ('w2u', 'w2u', 1, 1, 'base', 'all'),
             ('w1h', 'w1h', 3, 3, 'base', 'all'),
             ('w2h', 'w2h', 3, 3, 'base', 'n+m<=5'),
             ('w1n', 'w1n', 3, 3, 'base', 'all'),
@@ -583,11 +606,21 @@ def _width(space):
     return len(_ROWS[space][0])
 
 
+def _enc_cell(v):
+    return ('__complex__', v.real, v.imag) if isinstance(v, complex) else v
+
+
+def _dec_cell(v):
+    if isinstance(v, (list, tuple)) and len(v) == 3 and v[0] == '__complex__':
+        return complex(v[1], v[2])
+    return v
+
+
 def case_of(form, a, bgiven, law=None, sig=None, cont=PLAIN):
     c = {'op': form[0], 'strict': form[1], 'buffersize': form[2], 'presorted': form[3], 'bvar': form[4],
          'rows_a': cont[0], 'rows_b': cont[1],
-         'a': [tuple(a[0])] + [tuple(r) for r in a[1]],
-         'b': [tuple(bgiven[0])] + [tuple(r) for r in bgiven[1]]}
+         'a': [tuple(a[0])] + [tuple(_enc_cell(v) for v in r) for r in a[1]],
+         'b': [tuple(bgiven[0])] + [tuple(_enc_cell(v) for v in r) for r in bgiven[1]]}
     if law:
         c['law'] = law
     if sig:
@@ -700,8 +733,8 @@ def replay(case):
                if x[0] == case['sig']]
         return (bad[0][1], bad[0][2], bad[0][3]) if bad else None
     form = (case['op'], case['strict'], case['buffersize'], case['presorted'], case['bvar'])
-    a = (tuple(case['a'][0]), tuple(tuple(r) for r in case['a'][1:]))
-    b = (tuple(case['b'][0]), tuple(tuple(r) for r in case['b'][1:]))
+    a = (tuple(case['a'][0]), tuple(tuple(_dec_cell(v) for v in r) for r in case['a'][1:]))
+    b = (tuple(case['b'][0]), tuple(tuple(_dec_cell(v) for v in r) for r in case['b'][1:]))
     cont = (case.get('rows_a', 'tuple'), case.get('rows_b', 'tuple'))
     if case.get('law') == 'reassembly':
         bad = reassembly(a, b, cont=cont, pre=bool(case['presorted']))
